@@ -117,6 +117,7 @@ func verifZoneWorld() []dnsdata.VerifRec {
 	recs := []dnsdata.VerifRec{
 		{Kind: 'Z', Dom: []byte("z"), TTL: 2560, Target: []byte("ns.z")},
 		{Kind: '&', Dom: []byte("z"), TTL: 259200, Target: []byte("ns.z"), IP: []byte{192, 0, 2, 1}},
+		{Kind: '&', Dom: []byte("z"), TTL: 259200, Target: []byte("ns2.z"), IP: []byte{192, 0, 2, 2}, Loc: verifL1}, // an NS only clients of L1 see, next to the untagged SOA
 		{Kind: '+', Dom: []byte("c.z"), TTL: 300, IP: []byte{192, 0, 2, 10}, Weight: 1},
 		{Kind: '+', Dom: []byte("c.z"), TTL: 301, IP: []byte{0x20, 0x01, 0x0d, 0xb8, 0, 0, 0, 0, 0, 0, 0, 0, 0, 0, 0, 0x10}, Weight: 1},
 		{Kind: '\'', Dom: []byte("z"), Wild: true, TTL: 302, Txt: []byte("w")},
